@@ -10,7 +10,7 @@ import LaytheVerif.Gen.HandlerRules
               (recorded, analysed) depth of every `PushHandler`, whether the model of
               `apply_stack_effects` of the tree at hand reproduces the recorded depths, and
               diagnostics of a rejection.
-* `spec`    : an S-expression program ↦ `status<TAB>last stderr line<TAB>stdout lines (0x1f separated)`
+* `spec`    : an S-expression program ↦ `status<TAB>last stderr line<TAB>stdout lines (each terminated by 0x1f)`
               computed by the definitional interpreter `Model/TrySpec.lean`.
 * `lower`   : `single|stack <skeleton S-expression>` ↦ the lowering model's instruction stream, the
               checker's verdict on it and the E4 envelope flag.
@@ -132,6 +132,7 @@ partial def toExpr : Sexp → Option LaytheVerif.TrySpec.Expr
   | .list [.atom "add", a, b] => do some (.add (← toExpr a) (← toExpr b))
   | .list [.atom "lt", a, b] => do some (.lt (← toExpr a) (← toExpr b))
   | .list [.atom "eq", a, b] => do some (.eq (← toExpr a) (← toExpr b))
+  | .list [.atom "cat", a, b] => do some (.cat (← toExpr a) (← toExpr b))
   | .list [.atom "call", .atom f, .list args] => do some (.call f (← args.mapM toExpr))
   | .list [.atom "callm", .atom f, .list args] => do some (.callm f (← args.mapM toExpr))
   | _ => none
@@ -140,6 +141,19 @@ def toInts (l : List Sexp) : Option (List Int) :=
   l.mapM fun s => match s with
     | .atom k => k.toInt?
     | _ => none
+
+open LaytheVerif.TrySpec in
+def toSink : Sexp → Option LaytheVerif.TrySpec.Sink
+  | .list [.atom "each", .atom y] => some (.each y)
+  | .list [.atom "forin", .atom y] => some (.forin y)
+  | .atom "list" => some .list
+  | .atom "collectl" => some .collectList
+  | .atom "collectt" => some .collectTuple
+  | .list [.atom "reduce", .atom v, init, .atom a, .atom y] => do some (.reduce v (← toExpr init) a y)
+  | .list [.atom "all", .atom y] => some (.all y)
+  | .list [.atom "any", .atom y] => some (.any y)
+  | .list [.atom "zip", .list vals] => do some (.zip (← toInts vals))
+  | _ => none
 
 open LaytheVerif.TrySpec in
 mutual
@@ -158,6 +172,14 @@ partial def toStmt : Sexp → Option LaytheVerif.TrySpec.Stmt
   | .list [.atom "for", .atom x, .list vals, .list body] => do some (.for_ x (← toInts vals) (← toBlock body))
   | .list [.atom "each", .atom x, .list vals, .list body] => do some (.each x (← toInts vals) (← toBlock body))
   | .list [.atom "if", c, .list t, .list e] => do some (.if_ (← toExpr c) (← toBlock t) (← toBlock e))
+  | .list [.atom "pipe", .list vals, .list stages, sink, .list body] => do
+    let ss ← stages.mapM fun c => match c with
+      | .list [.atom "map", .atom x, .list blk] => do some (false, x, ← toBlock blk)
+      | .list [.atom "filter", .atom x, .list blk] => do some (true, x, ← toBlock blk)
+      | _ => none
+    some (.pipe (← toInts vals) ss (← toSink sink) (← toBlock body))
+  | .list [.atom "sort", .list vals, .atom k, .list body] => do some (.sort (← toInts vals) (← k.toInt?) (← toBlock body))
+  | .list [.atom "exit", .atom n] => do some (.exit (← n.toNat?))
   | .atom "break" => some .brk
   | .atom "continue" => some .cont
   | .list [.atom "return", e] => do some (.ret (← toExpr e))
@@ -197,7 +219,8 @@ def stepSpec (_ : Unit) (line : String) : Unit × String :=
     | none => ((), "bad-prog")
     | some p =>
       let (out, status, last) := LaytheVerif.TrySpec.runProg p 100000
-      ((), s!"{status}\t{last}\t{String.intercalate "\x1f" out.toList}")
+      -- every stdout line is TERMINATED by 0x1f (an empty line is not the same as no line)
+      ((), s!"{status}\t{last}\t{String.join (out.toList.map (· ++ "\x1f"))}")
 
 /-! ### engine `lower` -/
 
